@@ -113,9 +113,8 @@ Definition run_write_buf (len hint : nat) (items : list Z) : list Z :=
               (apply_writes ws (repeat None len)).
 
 (* ---- UninitVec::set (uninit.rs:32-40): `if idx < len { uset(idx, v); Ok } else { Err(oob) }` — status, the uset calls,
-   the buffer afterwards.  (mutation campaign M3: interpreter only; Model/Collect.v has no entry for this method.) ---- *)
-Definition uninit_set_writes (len idx : nat) (v : Z) : wstatus * list (nat * Z) :=
-  if idx <? len then (WOk, [(idx, v)]) else (WErr, []).
+   the buffer afterwards.  The specification is Model/Collect.v `uninit_set` (theorems C19_uninit_set_total etc.). ---- *)
+Definition uninit_set_writes (len idx : nat) (v : Z) : wstatus * list (nat * Z) := uninit_set len idx v.
 Definition run_uninit_set (len idx : nat) (v : Z) : list Z :=
   let '(st, ws) := uninit_set_writes len idx v in
   (match st with WOk => c_int 0 | WErr => c_err | WPanic k => c_panic k end)
